@@ -69,33 +69,33 @@ theorem detect_dup_keys :
   intro h
   cases h with
   | obj a b c =>
-    have := b ("a", .null) (by simp) .int (by simp [Fields.get?_cons])
+    have := b ("a", .null) (by simp) .int (by simp [Fields.get?_consI])
     cases this
 
 /-! ## 2. `DUnion.__init__` -/
 
 /-- **C01.2** Every inhabitant of a (flattened) argument of `DUnion(*ts)` is an inhabitant of the union.
-    `HashSound acc g ts` : equal hash strings ⇒ same inhabitants, for `str` and the flattened arguments. -/
+    `HashSoundX acc g ts` : equal hash strings ⇒ same inhabitants, for `str` and the flattened arguments. -/
 theorem mkUnion_sound {acc : Accepts} {g : ModelLookup} {c : LitCfg} {ts : List Ty} {t : Ty} {v : Json}
-    (hs : HashSound false acc g ts) (ht : t ∈ flattenUnion ts) (hi : Inh acc g t v) :
+    (hs : HashSoundX false acc g ts) (ht : t ∈ flattenUnion ts) (hi : Inh acc g t v) :
     Inh acc g (.union (mkUnionMembers c ts)) v :=
   inhX_false_iff.1 (J2M.mkUnion_sound hs ht (inhX_false_iff.2 hi))
 
 /-- the same for the raw relation (an overflowed literal argument makes `str` a member) -/
 theorem mkUnion_sound_raw {acc : Accepts} {g : ModelLookup} {c : LitCfg} {ts : List Ty} {t : Ty} {v : Json}
-    (hs : HashSound true acc g ts) (ht : t ∈ flattenUnion ts) (hi : InhR acc g t v) :
+    (hs : HashSoundX true acc g ts) (ht : t ∈ flattenUnion ts) (hi : InhR acc g t v) :
     InhR acc g (.union (mkUnionMembers c ts)) v :=
   J2M.mkUnion_sound hs ht hi
 
-/-- corollary: injectivity of `hashStr` on `str` and the members discharges `HashSound` -/
+/-- corollary: injectivity of `hashStr` on `str` and the members discharges `HashSoundX` -/
 theorem mkUnion_sound_of_inj {acc : Accepts} {g : ModelLookup} {c : LitCfg} {ts : List Ty} {t : Ty} {v : Json}
     (inj : ∀ a b, a ∈ Ty.str :: flattenUnion ts → b ∈ Ty.str :: flattenUnion ts → hashStr a = hashStr b → a = b)
     (ht : t ∈ flattenUnion ts) (hi : Inh acc g t v) :
     Inh acc g (.union (mkUnionMembers c ts)) v :=
   mkUnion_sound (fun a b ha hb e v => by rw [inj a b ha hb e]) ht hi
 
-/-- non-vacuity: a concrete member list on which `HashSound` holds and literals are folded -/
-example : HashSound false (fun _ _ => some false) (fun _ => none)
+/-- non-vacuity: a concrete member list on which `HashSoundX` holds and literals are folded -/
+example : HashSoundX false (fun _ _ => some false) (fun _ => none)
     [.lit false ["a"], .int, .union [.lit false ["b"], .int]] := by
   intro a b ha hb e v
   simp [flattenUnion] at ha hb
@@ -299,7 +299,9 @@ theorem resolve_covers {reg : StrRegistry} (hrank : ReplacesRanked reg) {fuel : 
 /-- with a `replaces` cycle both kinds of the cycle are dropped and nothing covers them -/
 example : resolve ⟨["a", "b", "c"], [("a", "b"), ("b", "a")], []⟩ ["a", "b", "c"] 5 = .ok ["c"] := by rfl
 
-/-- The full statement.  It is FALSE: see `optimize_witness` / `optimize_sound_false`. -/
+/-- The full statement.  Before the repair of generator.py:155 it was FALSE (the old `optimize_witness`: the
+    union of `{a: int}` and `{a: Optional[int]}` was optimised to `{a: int}`, losing `{"a": null}`).
+    It is now TRUE: `optimize_sound` / `optimize_sound_Statement_true`. -/
 def optimize_sound_Statement : Prop :=
   ∀ (acc : Accepts) (g : ModelLookup) (K : String → Prop) (cfg : GenCfg) (e : EqEnv) (fuel : Nat)
     (t t' : Ty) (v : Json),
@@ -308,30 +310,97 @@ def optimize_sound_Statement : Prop :=
     optimize cfg e fuel t = .ok t' → Inh acc g t v → Inh acc g t' v
 
 /-- NEW behaviour (repaired generator.py:155): the union of `{a: int}` and `{a: Optional[int]}` is optimised
-    to `{a: Optional[int]}` (it was `{a: int}`, which lost `{"a": null}` — the old `optimize_witness`). -/
+    to `{a: Optional[int]}` (it was `{a: int}`). -/
 example : optimize cfgW eW 5 (.union [.obj [("a", .int)], .obj [("a", .opt .int)]]) =
     .ok (.obj [("a", .opt .int)]) := by rfl
 
-/-- **C01.4 (partial: `Ty.MergeSafe false t` — inline objects below a union have no `DOptional` field).**
-    `optimize_type` keeps every inhabitant. -/
+/-- **C01.4 (full).** `optimize_type` keeps every inhabitant of every generator-stage type — inline objects
+    below a union may have `DOptional` fields (no `Ty.MergeSafe` restriction any more).
+    Inside, `_optimize_union` merges the inline objects (`mergeFieldSets_sound`, lax reading) and optimises the
+    merged object's fields, which turns every optional-like field (`Union[Optional[str], int]`) into a
+    `DOptional` (`optimize_optLike_isOpt`), restoring the strict reading. -/
+theorem optimize_sound {acc : Accepts} {g : ModelLookup} {K : String → Prop} {cfg : GenCfg}
+    {e : EqEnv} {fuel : Nat} {t t' : Ty} {v : Json}
+    (hs : HashSoundOn false acc g (Ty.Good K)) (he : EqSoundOn false acc g e (Ty.Good K))
+    (hrep : ReplacesSound acc cfg.reg) (hrank : ReplacesRanked cfg.reg)
+    (hg : Ty.Good K t)
+    (h : optimize cfg e fuel t = .ok t') (hi : Inh acc g t v) : Inh acc g t' v :=
+  inhX_false_iff.1
+    (((optimize_spec_all hs he hrep hrank fuel).1 t t' hg h).2.2.covers v (inhX_false_iff.2 hi))
+
+theorem optimize_sound_Statement_true : optimize_sound_Statement :=
+  fun _ _ _ _ _ _ _ _ _ hs he hrep hrank hg h hi => optimize_sound hs he hrep hrank hg h hi
+
+/-- `optimize_type` of an object also accepts the objects that lie in it *laxly* (a field whose type is a
+    `DUnion` with a `DOptional` member may be absent): this is what makes "merge, then optimise" sound. -/
+theorem optimize_sound_lax {acc : Accepts} {g : ModelLookup} {K : String → Prop} {cfg : GenCfg}
+    {e : EqEnv} {fuel : Nat} {fs : Fields} {t' : Ty} {kvs : List (String × Json)}
+    (hs : HashSoundOn false acc g (Ty.Good K)) (he : EqSoundOn false acc g e (Ty.Good K))
+    (hrep : ReplacesSound acc cfg.reg) (hrank : ReplacesRanked cfg.reg)
+    (hg : Ty.Good K (.obj fs))
+    (h : optimize cfg e fuel (.obj fs) = .ok t') (hi : InhFieldsLax acc g fs kvs) :
+    Inh acc g t' (.obj kvs) :=
+  inhX_false_iff.1
+    (((optimize_spec_all hs he hrep hrank fuel).1 _ t' hg h).2.2 _ ⟨kvs, rfl, inhFieldsLX_false_iff.2 hi⟩)
+
+/-- an optional-like type (`DOptional`, or `DUnion` with a `DOptional` member) is optimised to a `DOptional` -/
+theorem optimize_optLike_isOpt {acc : Accepts} {g : ModelLookup} {K : String → Prop} {cfg : GenCfg}
+    {e : EqEnv} {fuel : Nat} {t t' : Ty}
+    (hs : HashSoundOn false acc g (Ty.Good K)) (he : EqSoundOn false acc g e (Ty.Good K))
+    (hrep : ReplacesSound acc cfg.reg) (hrank : ReplacesRanked cfg.reg)
+    (hg : Ty.Good K t) (h : optimize cfg e fuel t = .ok t') (hl : t.optLike = true) : t'.isOpt = true :=
+  ((optimize_spec_all hs he hrep hrank fuel).1 t t' hg h).2.1 hl
+
+/-- **C01.3 + C01.4: "merge, then optimise" is sound, strictly** — what `ModelRegistry._merge` followed by
+    `optimize_type(model_meta)` does with the field dicts of the merged models (which do contain `DOptional`
+    fields): an object that lies (strictly) in one of the field sets lies (strictly) in the optimised merge. -/
+theorem merge_then_optimize_sound {acc : Accepts} {g : ModelLookup} {K : String → Prop} {cfg : GenCfg}
+    {e : EqEnv} {fuel : Nat} {sets : List Fields} {F fs : Fields} {t' : Ty} {kvs : List (String × Json)}
+    (hs : HashSoundOn false acc g (Ty.Good K)) (he : EqSoundOn false acc g e (Ty.Good K))
+    (hrep : ReplacesSound acc cfg.reg) (hrank : ReplacesRanked cfg.reg)
+    (hgood : ∀ m ∈ sets, Ty.Good K (.obj m))
+    (hm : mergeFieldSets cfg.lit e sets = .ok F) (ho : optimize cfg e fuel (.obj F) = .ok t')
+    (hfs : fs ∈ sets) (hi : InhFields acc g fs kvs) : Inh acc g t' (.obj kvs) :=
+  optimize_sound_lax hs he hrep hrank (mergeFieldSets_good_opt hs he hgood hm) ho
+    (mergeFieldSets_sound hs he hgood hm hfs (inhFields_toLax hi))
+
+/-- non-vacuity of `merge_then_optimize_sound` on the witness of `mergeFieldSets_witness`: the merge of
+    `{a: int}` and `{a: Optional[str]}` is optimised to `{a: Optional[Union[int, str]]}`, which holds `{}` -/
+example : optimize cfgW eW1 6 (.obj [("a", .union [.opt .str, .int])]) =
+    .ok (.obj [("a", .opt (.union [.int, .str]))]) := by
+  simp [optimize, optimizeUnion, splitMembers, Ty.isInt, Ty.isFloat, Ty.isStr, Ty.isUnknown,
+    Ty.isNull, bind, Except.bind, pure, Except.pure, mkUnionMembers, flattenUnion, handleType, hashStr,
+    cfgW]
+
+/-- **C01.4 (the former partial form, kept as a corollary; the `Ty.MergeSafe` hypothesis is no longer used).** -/
 theorem optimize_sound_partial {acc : Accepts} {g : ModelLookup} {K : String → Prop} {cfg : GenCfg}
     {e : EqEnv} {fuel : Nat} {t t' : Ty} {v : Json}
     (hs : HashSoundOn false acc g (Ty.Good K)) (he : EqSoundOn false acc g e (Ty.Good K))
     (hrep : ReplacesSound acc cfg.reg) (hrank : ReplacesRanked cfg.reg)
-    (hg : Ty.Good K t) (hm : Ty.MergeSafe false t)
+    (hg : Ty.Good K t) (_hm : Ty.MergeSafe false t)
     (h : optimize cfg e fuel t = .ok t') (hi : Inh acc g t v) : Inh acc g t' v :=
-  inhX_false_iff.1 (((optimize_spec_all hs he hrep hrank fuel).1 t t' ⟨hg, hm⟩ h).2.2 v (inhX_false_iff.2 hi))
+  optimize_sound hs he hrep hrank hg h hi
 
 /-- the raw form: an overflowed literal in the input is read as "any string"; the result has none -/
+theorem optimize_sound_raw_full {acc : Accepts} {g : ModelLookup} {K : String → Prop} {cfg : GenCfg}
+    {e : EqEnv} {fuel : Nat} {t t' : Ty} {v : Json}
+    (hs : HashSoundOn true acc g (Ty.Good K)) (he : EqSoundOn true acc g e (Ty.Good K))
+    (hrep : ReplacesSound acc cfg.reg) (hrank : ReplacesRanked cfg.reg)
+    (hg : Ty.Good K t)
+    (h : optimize cfg e fuel t = .ok t') (hi : InhR acc g t v) :
+    InhR acc g t' v ∧ Ty.NoOv t' ∧ Ty.Good K t' := by
+  obtain ⟨hout, _, hcov⟩ := (optimize_spec_all hs he hrep hrank fuel).1 t t' hg h
+  exact ⟨hcov.covers v hi, hout.2, hout.1⟩
+
+/-- the raw form with the former `Ty.MergeSafe` hypothesis (unused) -/
 theorem optimize_sound_raw {acc : Accepts} {g : ModelLookup} {K : String → Prop} {cfg : GenCfg}
     {e : EqEnv} {fuel : Nat} {t t' : Ty} {v : Json}
     (hs : HashSoundOn true acc g (Ty.Good K)) (he : EqSoundOn true acc g e (Ty.Good K))
     (hrep : ReplacesSound acc cfg.reg) (hrank : ReplacesRanked cfg.reg)
-    (hg : Ty.Good K t) (hm : Ty.MergeSafe false t)
+    (hg : Ty.Good K t) (_hm : Ty.MergeSafe false t)
     (h : optimize cfg e fuel t = .ok t') (hi : InhR acc g t v) :
-    InhR acc g t' v ∧ Ty.NoOv t' ∧ Ty.Good K t' := by
-  obtain ⟨hout, _, hcov⟩ := (optimize_spec_all hs he hrep hrank fuel).1 t t' ⟨hg, hm⟩ h
-  exact ⟨hcov v hi, hout.2, hout.1⟩
+    InhR acc g t' v ∧ Ty.NoOv t' ∧ Ty.Good K t' :=
+  optimize_sound_raw_full hs he hrep hrank hg h hi
 
 /-! ## 5. `generate` -/
 
@@ -428,7 +497,35 @@ theorem mergeFieldSets_sound_names {acc : Accepts} {g : ModelLookup} {K : String
     InhFields acc g F kvs :=
   mergeFieldSets_sound_partial (hashSoundOn_good hK) (pyEq_sound e he) hgood hnoopt h hfs hi
 
-/-- **C01.4 (partial) without hash / `==` hypotheses** -/
+/-- **C01.3 (full) without hash / `==` hypotheses**: comparison without model lookup -/
+theorem mergeFieldSets_sound_full_names {acc : Accepts} {g : ModelLookup} {K : String → Prop} {c : LitCfg}
+    {e : EqEnv} {sets : List Fields} {F fs : Fields} {kvs : List (String × Json)}
+    (hK : ∀ k, K k → wfSerName k = true) (he : e.look = fun _ => none)
+    (hgood : ∀ m ∈ sets, Ty.Good K (.obj m))
+    (h : mergeFieldSets c e sets = .ok F) (hfs : fs ∈ sets) (hi : InhFieldsLax acc g fs kvs) :
+    InhFieldsLax acc g F kvs :=
+  mergeFieldSets_sound (hashSoundOn_good hK) (pyEq_sound e he) hgood h hfs hi
+
+/-- **C01.4 (full) without hash / `==` hypotheses** -/
+theorem optimize_sound_full_names {acc : Accepts} {g : ModelLookup} {K : String → Prop} {cfg : GenCfg}
+    {e : EqEnv} {fuel : Nat} {t t' : Ty} {v : Json}
+    (hK : ∀ k, K k → wfSerName k = true) (he : e.look = fun _ => none)
+    (hrep : ReplacesSound acc cfg.reg) (hrank : ReplacesRanked cfg.reg)
+    (hg : Ty.Good K t)
+    (h : optimize cfg e fuel t = .ok t') (hi : Inh acc g t v) : Inh acc g t' v :=
+  optimize_sound (hashSoundOn_good hK) (pyEq_sound e he) hrep hrank hg h hi
+
+/-- **"merge, then optimise" without hash / `==` hypotheses** -/
+theorem merge_then_optimize_sound_names {acc : Accepts} {g : ModelLookup} {K : String → Prop} {cfg : GenCfg}
+    {e : EqEnv} {fuel : Nat} {sets : List Fields} {F fs : Fields} {t' : Ty} {kvs : List (String × Json)}
+    (hK : ∀ k, K k → wfSerName k = true) (he : e.look = fun _ => none)
+    (hrep : ReplacesSound acc cfg.reg) (hrank : ReplacesRanked cfg.reg)
+    (hgood : ∀ m ∈ sets, Ty.Good K (.obj m))
+    (hm : mergeFieldSets cfg.lit e sets = .ok F) (ho : optimize cfg e fuel (.obj F) = .ok t')
+    (hfs : fs ∈ sets) (hi : InhFields acc g fs kvs) : Inh acc g t' (.obj kvs) :=
+  merge_then_optimize_sound (hashSoundOn_good hK) (pyEq_sound e he) hrep hrank hgood hm ho hfs hi
+
+/-- **C01.4 (former partial form) without hash / `==` hypotheses** -/
 theorem optimize_sound_names {acc : Accepts} {g : ModelLookup} {K : String → Prop} {cfg : GenCfg}
     {e : EqEnv} {fuel : Nat} {t t' : Ty} {v : Json}
     (hK : ∀ k, K k → wfSerName k = true) (he : e.look = fun _ => none)
@@ -549,6 +646,19 @@ end J2M.C01
 #print axioms J2M.C01.mergeFieldSets_witness
 #print axioms J2M.C01.mergeFieldSets_sound_false
 #print axioms J2M.C01.mergeFieldSets_sound_partial
+#print axioms J2M.C01.mergeFieldSets_sound
+#print axioms J2M.C01.mergeFieldSets_sound_strict
+#print axioms J2M.C01.mergeFieldSets_sound_values
+#print axioms J2M.C01.mergeFieldSets_good_opt
+#print axioms J2M.C01.optimize_sound
+#print axioms J2M.C01.optimize_sound_Statement_true
+#print axioms J2M.C01.optimize_sound_lax
+#print axioms J2M.C01.optimize_optLike_isOpt
+#print axioms J2M.C01.merge_then_optimize_sound
+#print axioms J2M.C01.optimize_sound_raw_full
+#print axioms J2M.C01.mergeFieldSets_sound_full_names
+#print axioms J2M.C01.optimize_sound_full_names
+#print axioms J2M.C01.merge_then_optimize_sound_names
 #print axioms J2M.C01.pyEq_sound
 #print axioms J2M.C01.resolve_covers
 #print axioms J2M.C01.optimize_sound_partial
